@@ -35,10 +35,17 @@ def _ident(s: str) -> str:
     return s
 
 
-def _lit(s: str) -> str:
+def _str(s: str) -> str:
     if any(ord(ch) >= 128 or ch in '"\\' or ord(ch) < 32 for ch in s):
         raise TranslationError(f"string {s!r} cannot be written as a plain Lean literal")
     return '"' + s + '"'
+
+
+def _lit(s: str) -> str:
+    """A name as a `List Char` literal (the kernel compares these ~7x faster than `"…".toList`)."""
+    if any(ord(ch) >= 128 or ch in "'\\" or ord(ch) < 32 for ch in s):
+        raise TranslationError(f"string {s!r} cannot be written as a plain Lean character list")
+    return "[" + ",".join("'" + ch + "'" for ch in s) + "]"
 
 
 def _list(xs) -> str:
@@ -101,6 +108,57 @@ def collect():
         if sorted(subs, key=lambda n: pos[n]) != subs:
             raise TranslationError(f"__subclasses__() order of {c.__name__} is not table order: {subs}")
 
+    # ---- which classes the template search does not go beyond (observed on the running code) ---------------------------
+    from nunavut.jinja.loaders import DSDLTemplateLoader
+
+    class Spy(dict):
+        """A template mapping that has nothing and records what it was asked for."""
+
+        def __init__(self):
+            super().__init__()
+            self.asked = []
+
+        def __getitem__(self, k):
+            self.asked.append(k)
+            raise KeyError(k)
+
+    stops = []
+    for c in order:
+        nb = [b for b in c.__bases__ if b is not object]
+        if len(nb) > 1:
+            continue  # the walk of a multiple-inheritance class is not a chain; the model's general loop covers it
+        full, k = [], c
+        while True:
+            full.append(k.__name__)
+            kb = [b for b in k.__bases__ if b is not object]
+            if len(kb) != 1:
+                break
+            k = kb[0]
+        spy = Spy()
+        if DSDLTemplateLoader()._type_to_template_internal(c, spy) is not None:
+            raise TranslationError("search over an empty template set returned a template")
+        asked = spy.asked
+        if asked == full:
+            continue
+        if asked != full[: len(asked)] or not asked:
+            raise TranslationError(f"search from {c.__name__} considered {asked}, its chain is {full}")
+        if asked[-1] not in stops:
+            stops.append(asked[-1])
+    # consistency: the walk from every class must stop exactly at the first stop class of its chain
+    for c in order:
+        k, exp = c, []
+        while True:
+            exp.append(k.__name__)
+            kb = [b for b in k.__bases__ if b is not object]
+            if k.__name__ in stops or len(kb) != 1:
+                break
+            k = kb[0]
+        if len([b for b in c.__bases__ if b is not object]) <= 1:
+            spy = Spy()
+            DSDLTemplateLoader()._type_to_template_internal(c, spy)
+            if spy.asked != exp:
+                raise TranslationError(f"search from {c.__name__} considered {spy.asked}, expected {exp} with stops {stops}")
+
     # ---- instance tests as the code enumerates them ------------------------------------------------------------
     src_all = inspect.getsource(DSDLCodeGenerator._create_all_dsdl_tests)
     # strip the docstring (it contains example calls)
@@ -136,6 +194,7 @@ def collect():
         "pydsdl_version": pydsdl.__version__,
         "classes": table,
         "under_any": sorted(c.__name__ for c in under_any),
+        "search_stops": stops,
         "roots": roots,
         "redirect": redirect[0],
         "code_tests": code_tests,
@@ -154,34 +213,42 @@ def render(d) -> str:
     out.append("-/")
     out.append("namespace NunavutVerif.Gen.PydsdlClasses")
     out.append("")
-    out.append(f"def pydsdlVersion : String := {_lit(d['pydsdl_version'])}")
+    out.append(f"def pydsdlVersion : String := {_str(d['pydsdl_version'])}")
+    out.append("")
+    out.append("/-- Names are written as character lists. -/")
+    out.append("abbrev Name := List Char")
     out.append("")
     out.append("/-- `(cls.__name__, [b.__name__ for b in cls.__bases__ if b is not object])`, bases before subclasses. -/")
-    out.append("def classes : List (String × List String) := [")
+    out.append("def classes : List (Name × List Name) := [")
     rows = [f"  ({_lit(n)}, {_list(_lit(b) for b in bs)})" for n, bs in d["classes"]]
     out.append(",\n".join(rows))
+    out.append("  -- " + "; ".join(n + "(" + ",".join(bs) + ")" for n, bs in d["classes"]))
     out.append("]")
     out.append("")
     out.append("/-- Classes reachable from `pydsdl.Any` through `__subclasses__()` (the rest of `classes` was reached through `__bases__`). -/")
-    out.append(f"def underAny : List String := {_list(_lit(n) for n in d['under_any'])}")
+    out.append(f"def underAny : List Name := {_list(_lit(n) for n in d['under_any'])}")
+    out.append("")
+    out.append("/-- Classes whose `__bases__` `_type_to_template_internal` does not go on to (observed by running it on an empty template set). -/")
+    out.append(f"def searchStops : List Name := {_list(_lit(n) for n in d['search_stops'])}")
     out.append("")
     out.append("/-- Arguments of the `_create_instance_tests_for_type` calls in `_create_all_dsdl_tests`, in order. -/")
-    out.append(f"def instanceTestRoots : List String := {_list(_lit(n) for n in d['roots'])}")
+    out.append(f"def instanceTestRoots : List Name := {_list(_lit(n) for n in d['roots'])}")
     out.append("")
     out.append("/-- The class `_field_is_instance` redirects through `.data_type`. -/")
-    out.append(f"def redirectClass : String := {_lit(d['redirect'])}")
+    out.append(f"def redirectClass : Name := {_lit(d['redirect'])}")
     out.append("")
     out.append("/-- `(test name, class the closure tests against)` for every entry of `_create_all_dsdl_tests()`, sorted. -/")
-    out.append("def codeTests : List (String × String) := [")
+    out.append("def codeTests : List (Name × Name) := [")
     out.append(",\n".join(f"  ({_lit(a)}, {_lit(b)})" for a, b in d["code_tests"]))
+    out.append("  -- " + " ".join(a + "=" + b for a, b in d["code_tests"]))
     out.append("]")
     out.append("")
-    out.append(f"def reservedGlobalNamespaces : List String := {_list(_lit(n) for n in d['reserved_ns'])}")
-    out.append(f"def reservedGlobalNames : List String := {_list(_lit(n) for n in d['reserved_names'])}")
-    out.append(f"def testPrefix : String := {_lit(d['prefixes'][0])}")
-    out.append(f"def filterPrefix : String := {_lit(d['prefixes'][1])}")
-    out.append(f"def usesPrefix : String := {_lit(d['prefixes'][2])}")
-    out.append(f"def templateSuffix : String := {_lit(d['template_suffix'])}")
+    out.append(f"def reservedGlobalNamespaces : List Name := {_list(_lit(n) for n in d['reserved_ns'])}")
+    out.append(f"def reservedGlobalNames : List Name := {_list(_lit(n) for n in d['reserved_names'])}")
+    out.append(f"def testPrefix : Name := {_lit(d['prefixes'][0])}")
+    out.append(f"def filterPrefix : Name := {_lit(d['prefixes'][1])}")
+    out.append(f"def usesPrefix : Name := {_lit(d['prefixes'][2])}")
+    out.append(f"def templateSuffix : Name := {_lit(d['template_suffix'])}")
     out.append("")
     out.append("end NunavutVerif.Gen.PydsdlClasses")
     return "\n".join(out) + "\n"
